@@ -168,12 +168,81 @@ def _cross_module_helpers(sources):
     return trees
 
 
+def _unwrap_call_wrappers(tree, known):
+    """a module-level function introduced after the anchor table was frozen whose whole body is
+    ``return <first parameter>.method(*args, fixed=..., name=<parameter>, **kwargs)`` is a declaration
+    helper (``_add_repeatable(group, '--x', dest='x', ...)`` around ``group.add_argument``): its
+    module-level calls are rewritten to the wrapped call, so rules that read the declarations keep
+    seeing them.  Identity on the frozen tree."""
+    import copy
+    kf = set((known or {}).get('functions', ()))
+    wrappers = {}
+    for st in tree.body:
+        if not (isinstance(st, ast.FunctionDef) and st.name not in kf and not st.decorator_list):
+            continue
+        body = [x for x in st.body if not (isinstance(x, ast.Expr) and isinstance(x.value, ast.Constant))]
+        if len(body) != 1 or not isinstance(body[0], (ast.Return, ast.Expr)):
+            continue
+        c = body[0].value
+        a = st.args
+        if not (isinstance(c, ast.Call) and isinstance(c.func, ast.Attribute) and a.args and
+                isinstance(c.func.value, ast.Name) and c.func.value.id == a.args[0].arg):
+            continue
+        ok = True
+        for x in c.args:
+            if not (isinstance(x, ast.Starred) and isinstance(x.value, ast.Name) and a.vararg and
+                    x.value.id == a.vararg.arg):
+                ok = False
+        for k in c.keywords:
+            if k.arg is None and not (isinstance(k.value, ast.Name) and a.kwarg and k.value.id == a.kwarg.arg):
+                ok = False
+        if ok and len(a.args) == 1:
+            wrappers[st.name] = (st, c)
+    if not wrappers:
+        return tree
+    params_of = {}
+    for name, (fn, c) in wrappers.items():
+        params_of[name] = [x.arg for x in fn.args.kwonlyargs]
+    for st in tree.body:
+        if not (isinstance(st, (ast.Expr, ast.Assign)) and isinstance(st.value, ast.Call) and
+                isinstance(st.value.func, ast.Name) and st.value.func.id in wrappers and st.value.args):
+            continue
+        call = st.value
+        fn, c = wrappers[call.func.id]
+        given = {k.arg: k.value for k in call.keywords if k.arg}
+        kws = []
+        for k in c.keywords:
+            if k.arg is None:
+                continue
+            if isinstance(k.value, ast.Name) and k.value.id in params_of[call.func.id]:
+                if k.value.id in given:
+                    kws.append(ast.keyword(arg=k.arg, value=given.pop(k.value.id)))
+                else:
+                    dflt = dict(zip([x.arg for x in fn.args.kwonlyargs], fn.args.kw_defaults)).get(k.value.id)
+                    if dflt is not None:
+                        kws.append(ast.keyword(arg=k.arg, value=copy.deepcopy(dflt)))
+            else:
+                kws.append(ast.keyword(arg=k.arg, value=copy.deepcopy(k.value)))
+        for nm, v in given.items():
+            if nm not in params_of[call.func.id]:
+                kws.append(ast.keyword(arg=nm, value=v))
+        new = ast.Call(func=ast.Attribute(value=call.args[0], attr=c.func.attr, ctx=ast.Load()),
+                       args=list(call.args[1:]), keywords=kws)
+        st.value = ast.copy_location(new, call)
+    ast.fix_missing_locations(tree)
+    return tree
+
+
 class ModuleInfo:
     def __init__(self, name, source, tree=None):
         self.name = name                       # short module name: 'runner'
         self.source = source
         self.normalised = {}
-        self.tree = normalise(tree if tree is not None else ast.parse(source), name, self.normalised)
+        from .normalise import table as _table
+        tree = tree if tree is not None else ast.parse(source)
+        if _table().get(name) is not None:
+            tree = _unwrap_call_wrappers(tree, _table().get(name))
+        self.tree = normalise(tree, name, self.normalised)
         from .canon import canonicalise
         self.renamed = []
         canonicalise(self.tree, name, self.renamed)
